@@ -1,6 +1,7 @@
 import IbicusModel.Props.C07
 import IbicusModel.Props.Calendar
 import IbicusModel.Props.CalendarAgree
+import IbicusModel.Lemmas.GenLoops
 -- property theorems
 #print axioms Props.C07.postInit_ok
 #print axioms Props.C07.postInit_error_iff
@@ -40,3 +41,23 @@ import IbicusModel.Props.CalendarAgree
 #print axioms Props.Calendar.season_partition
 -- the two models of the inferred calendar (successor-day iteration / year arithmetic) agree on year and day of year
 #print axioms Props.CalendarAgree.inferred_agree
+-- tier A: the structure of the real write-back loops / `use` generators regenerated from the AST = the expected specs
+#print axioms Lemmas.GenLoops.useDoy
+#print axioms Lemmas.GenLoops.useYears
+#print axioms Lemmas.GenLoops.loopRW
+#print axioms Lemmas.GenLoops.loopDC
+#print axioms Lemmas.GenLoops.loopIsimipRW
+#print axioms Lemmas.GenLoops.loopIsimipMonths
+#print axioms Lemmas.GenLoops.loopCDFt
+#print axioms Lemmas.GenLoops.loopQDM
+-- … and the denotation of the expected specs is the skeleton (`Model/Skeleton.lean`) / the centre lists (`Model/Windows.lean`)
+#print axioms Lemmas.GenLoops.denote_loopRW
+#print axioms Lemmas.GenLoops.denote_loopDC
+#print axioms Lemmas.GenLoops.denote_loopIsimipRW
+#print axioms Lemmas.GenLoops.denote_loopIsimipMonths
+#print axioms Lemmas.GenLoops.denote_loopCDFt
+#print axioms Lemmas.GenLoops.denote_loopQDM
+#print axioms Lemmas.GenLoops.denoteGen_useDoy
+#print axioms Lemmas.GenLoops.denoteGen_useYears
+#print axioms Lemmas.GenLoops.genCentres_useDoy
+#print axioms Lemmas.GenLoops.genCentres_useYears
